@@ -1575,3 +1575,97 @@ Proof.
     rewrite map_length. rewrite Forall_forall in HS. apply HS. exact Hin.
 Qed.
 End JointLayout.
+
+(* ---- AddJitterOp's search: first jitter of the documented sequence that passes the Cholesky test -------- *)
+Section JitterSearch.
+Variable N : Num.
+Variables (ok : mat N -> bool) (within : T N -> bool) (K : mat N) (sigsq j0 growth : T N).
+
+Lemma jitter_loop_spec : forall fuel k0 A s,
+  jitter_loop N ok within K sigsq growth fuel (jpos N j0 growth k0) = Some (A, s) ->
+  exists k, (k0 <= k)%nat /\ s = add N sigsq (jpos N j0 growth k) /\ A = add_diag N K s /\ ok A = true /\
+            within (jpos N j0 growth k) = true /\
+            forall i, (k0 <= i < k)%nat ->
+              ok (add_diag N K (add N sigsq (jpos N j0 growth i))) = false /\ within (jpos N j0 growth i) = true.
+Proof.
+  induction fuel as [|f IH]; intros k0 A s H; [discriminate|]. cbn [jitter_loop] in H.
+  destruct (within (jpos N j0 growth k0)) eqn:Ew; [|discriminate].
+  destruct (ok (add_diag N K (add N sigsq (jpos N j0 growth k0)))) eqn:Eo.
+  - injection H as <- <-. exists k0.
+    split; [lia|]. split; [reflexivity|]. split; [reflexivity|]. split; [exact Eo|]. split; [exact Ew|].
+    intros i Hi. lia.
+  - change (mul N (jpos N j0 growth k0) growth) with (jpos N j0 growth (S k0)) in H.
+    destruct (IH (S k0) A s H) as [k [Hk [Hs [HA [Hok [Hw Hall]]]]]].
+    exists k. split; [lia|]. split; [exact Hs|]. split; [exact HA|]. split; [exact Hok|]. split; [exact Hw|].
+    intros i Hi. destruct (Nat.eq_dec i k0) as [->|Hne]; [split; [exact Eo | exact Ew] | apply Hall; lia].
+Qed.
+
+(* the contract: the result is K + sigsq_final * Id built from the ORIGINAL K (so only the diagonal differs from
+   K, see add_diag_entry), sigsq_final = sigsq + (k-th jitter of 0, j0, j0 g, j0 g^2, ...), it passes the test,
+   and every earlier jitter of the sequence was tried and failed the test: for every matrix size, 1 x 1 included *)
+Lemma add_jitter_spec fuel A s :
+  add_jitter N ok within K sigsq j0 growth fuel = Some (A, s) ->
+  exists k, s = add N sigsq (jseq N j0 growth k) /\ A = add_diag N K s /\ ok A = true /\
+            within (jseq N j0 growth k) = true /\
+            forall i, (i < k)%nat ->
+              ok (add_diag N K (add N sigsq (jseq N j0 growth i))) = false /\ within (jseq N j0 growth i) = true.
+Proof.
+  unfold add_jitter. intros H.
+  destruct (within (zero N)) eqn:Ew; [|discriminate].
+  destruct (ok (add_diag N K (add N sigsq (zero N)))) eqn:Eo.
+  - injection H as <- <-. exists 0%nat. cbn [jseq].
+    split; [reflexivity|]. split; [reflexivity|]. split; [exact Eo|]. split; [exact Ew|]. intros i Hi. lia.
+  - change j0 with (jpos N j0 growth 0) in H.
+    destruct (jitter_loop_spec fuel 0 A s H) as [k [_ [Hs [HA [Hok [Hw Hall]]]]]].
+    exists (S k). cbn [jseq]. split; [exact Hs|]. split; [exact HA|]. split; [exact Hok|]. split; [exact Hw|].
+    intros i Hi. destruct i as [|i]; [split; [exact Eo | exact Ew] | cbn [jseq]; apply Hall; lia].
+Qed.
+
+(* no jitter is added when the first test succeeds *)
+Lemma add_jitter_no_jitter fuel :
+  within (zero N) = true -> ok (add_diag N K (add N sigsq (zero N))) = true ->
+  add_jitter N ok within K sigsq j0 growth fuel = Some (add_diag N K (add N sigsq (zero N)), add N sigsq (zero N)).
+Proof. intros Hw Ho. unfold add_jitter. rewrite Hw, Ho. reflexivity. Qed.
+End JitterSearch.
+
+(* ---- the MCMC family of posterior states: state i belongs to sample i (every carrier) -------------------- *)
+Section McmcStates.
+Variable N : Num.
+Variable jit : T N.
+
+Lemma mcmc_states_nth (samples : list (gparams N)) (d : gdata N) i (p0 : gparams N) : (i < length samples)%nat ->
+  let m := nth i (mcmc_states N jit samples d) (mkGM N p0 None) in
+  gm_params N m = nth i samples p0 /\
+  gm_state N m = Some (d, gp_post N jit (nth i samples p0) d) /\
+  Fresh N jit m.
+Proof.
+  intros Hi. cbv zeta. unfold mcmc_states.
+  rewrite (map_nth_lt _ samples i p0 (mkGM N p0 None) Hi). cbn [gm_params gm_state].
+  split; [reflexivity|]. split; [reflexivity|]. unfold Fresh. reflexivity.
+Qed.
+
+Lemma mcmc_states_length (samples : list (gparams N)) (d : gdata N) :
+  length (mcmc_states N jit samples d) = length samples.
+Proof. apply map_length. Qed.
+
+(* predictions of state i use state i's own parameters: they are what a single model with those parameters gives *)
+Lemma mcmc_predict_nth floor (samples : list (gparams N)) (d : gdata N) Xt i (p0 : gparams N) :
+  (i < length samples)%nat ->
+  nth i (mcmc_predict N jit floor (mcmc_states N jit samples d) Xt) None =
+  gpredict N jit floor (mkGM N (nth i samples p0) (Some (d, gp_post N jit (nth i samples p0) d))) Xt.
+Proof.
+  intros Hi. unfold mcmc_predict, mcmc_states. rewrite map_map.
+  rewrite (map_nth_lt _ samples i p0 None Hi). reflexivity.
+Qed.
+
+(* fantasy matrices through the state: column j of the m-column state is the 1-column state on target column j,
+   and the factor does not depend on the targets *)
+Lemma pred_mat_column (L : mat N) (Y : list (vec N)) (mvec : vec N) j : (j < length Y)%nat ->
+  nth j (pred_mat N L Y mvec) [] = hd [] (pred_mat N L [nth j Y []] mvec).
+Proof. intros Hj. unfold pred_mat. exact (map_nth_lt (fun y => forward_subst N L (vsub N y mvec)) Y j [] [] Hj). Qed.
+
+Lemma cholesky_computations_columns (K : mat N) (s : T N) (Y : list (vec N)) (mvec : vec N) j : (j < length Y)%nat ->
+  fst (cholesky_computations N K s Y mvec) = fst (cholesky_computations N K s [nth j Y []] mvec) /\
+  nth j (snd (cholesky_computations N K s Y mvec)) [] = hd [] (snd (cholesky_computations N K s [nth j Y []] mvec)).
+Proof. intros Hj. unfold cholesky_computations. cbn [fst snd]. split; [reflexivity | apply pred_mat_column; exact Hj]. Qed.
+End McmcStates.
